@@ -581,15 +581,15 @@ def check_weights(ctx, R="C01.weights"):
 
 
 def check(ctx):
-    check_draw_once(ctx)
-    check_sample_memo(ctx)
-    check_loop(ctx)
-    check_clone(ctx)
-    check_weights(ctx)
+    ctx.run(check_draw_once)
+    ctx.run(check_sample_memo)
+    ctx.run(check_loop)
+    ctx.run(check_clone)
+    ctx.run(check_weights)
     # the lifted operators are part of the prior: an operator shortcut that is not an identity, or an operand that is not
     # lifted, changes the distribution of every scene using it (rules shared with C05, reported under this property)
     from .c05 import check_containers, check_lifting, check_shortcuts
 
-    check_shortcuts(ctx, R="C01.shortcut")
-    check_lifting(ctx, R="C01.lift")
-    check_containers(ctx, R="C01.containers")
+    ctx.run(check_shortcuts, R="C01.shortcut")
+    ctx.run(check_lifting, R="C01.lift")
+    ctx.run(check_containers, R="C01.containers")
